@@ -22,6 +22,8 @@ enum Op {
     UnbindUnknown(u8),
     ConnectIn(usize),
     Exchange(usize),
+    /// a second socket tries to bind an endpoint this socket is listening on
+    OtherSocketBind(usize),
 }
 
 struct Out {
@@ -42,7 +44,7 @@ fn bookkeeping(ctx: &mut Ctx) {
     let nops = 2 + ctx.plan(11) as usize;
     let mut ops = Vec::new();
     for _ in 0..nops {
-        let o = match ctx.plan(14) {
+        let o = match ctx.plan(15) {
             0 | 1 => Op::BindTcp4,
             2 => Op::BindTcp6,
             3 => Op::BindLocalhost,
@@ -52,6 +54,7 @@ fn bookkeeping(ctx: &mut Ctx) {
             7 | 8 => Op::UnbindBound(ctx.plan(8) as usize),
             9 => Op::UnbindUnknown(ctx.plan(3) as u8),
             10 | 11 => Op::ConnectIn(ctx.plan(8) as usize),
+            14 => Op::OtherSocketBind(ctx.plan(8) as usize),
             _ => Op::Exchange(ctx.plan(8) as usize),
         };
         ops.push(o);
@@ -62,6 +65,7 @@ fn bookkeeping(ctx: &mut Ctx) {
     let idx = ctx.idx;
     rt::task::spawn_local("app", async move {
         let mut sock = AnySock::new(kind, None);
+        let mut other = AnySock::new(kind, None);
         // the reference model: the set of bound endpoints (their text form), in bind order
         let mut model: Vec<String> = Vec::new();
         let mut conns: Vec<(RawPeer, String, u16)> = Vec::new(); // (peer, endpoint it came in through, id)
@@ -146,7 +150,7 @@ fn bookkeeping(ctx: &mut Ctx) {
                         bail!("unbound_listener_still_registered", "op {n}: after unbind({text}) its listener still exists");
                     }
                     if let Some(p) = text.strip_prefix("ipc://") {
-                        if rt::rt().net.borrow().files.contains(std::path::Path::new(p)) {
+                        if rt::rt().net.borrow().file_exists(std::path::Path::new(p)) {
                             bail!("unbound_ipc_file_left_behind", "op {n}: after unbind({text}) the socket file still exists");
                         }
                     }
@@ -170,6 +174,23 @@ fn bookkeeping(ctx: &mut Ctx) {
                         Err(ZmqError::NoSuchBind(_)) => {}
                         Err(e) => bail!("unbind_unknown_wrong_error", "op {n}: unbind({text}) of a never-bound endpoint failed with '{e}' instead of the no-such-bind error"),
                         Ok(()) => bail!("unbind_unknown_succeeded", "op {n}: unbind({text}) of a never-bound endpoint succeeded"),
+                    }
+                }
+                Op::OtherSocketBind(i) => {
+                    if model.is_empty() {
+                        continue;
+                    }
+                    let text = model[*i % model.len()].clone();
+                    if other.bind(&text).await.is_ok() {
+                        bail!("second_socket_bound_endpoint_in_use", "op {n}: another socket's bind({text}) succeeded although this socket is listening there");
+                    }
+                    // the endpoint still reaches this socket
+                    if rt::rt().net.borrow().listener_keys() != listeners_before {
+                        bail!("failed_bind_changed_listeners", "op {n}: another socket's failed bind({text}) changed the set of listeners");
+                    }
+                    match RawPeer::connect(&text) {
+                        Ok(p) => drop(p),
+                        Err(_) => bail!("endpoint_lost_after_foreign_bind", "op {n}: after another socket's failed bind({text}) the endpoint refuses connections"),
                     }
                 }
                 Op::ConnectIn(i) => {
@@ -227,6 +248,7 @@ fn bookkeeping(ctx: &mut Ctx) {
         o2.borrow_mut().done = true;
         world::park().await;
         drop(sock);
+        drop(other);
         drop(conns);
     });
     let end = ctx.sim.run(600_000);
